@@ -428,6 +428,7 @@ WhyVerdict(r) ==
            ELSE (IF RelaxedAccepts(r.p, "rangeOrder") THEN "Dev_ClassRangeOrder"
                  ELSE IF RelaxedAccepts(r.p, "quantOrder") THEN "Dev_QuantOrder"
                  ELSE IF RelaxedAccepts(r.p, "lbQuant") THEN "Dev_LookbehindQuantified"
+                 ELSE IF RelaxedAccepts(r.p, "asQuant") THEN "Dev_AssertionQuantified"
                  ELSE IF RelaxedAccepts(r.p, "looseEscape") THEN "Dev_LooseEscape"
                  ELSE "")]
 \* flags: valid iff letters of gimsuy (d, v: newer editions, not judged), no duplicates
